@@ -333,6 +333,20 @@ class Model:
                 return False
         return True
 
+    def new_definitions(self):
+        """{module path: names of classes and functions defined there that the pinned tree did not define in that module} - what a change introduced"""
+        if getattr(self, '_new_defs', None) is not None:
+            return self._new_defs
+        base = _baseline().get('modules') or {}
+        out = {}
+        for mod, (rel, tree) in self.mods.items():
+            have = {n.name for n in ast.walk(tree) if isinstance(n, (ast.FunctionDef, ast.ClassDef))}
+            new = have - set(base.get(rel, have if rel not in base and not base else ()))
+            if new:
+                out[rel] = new
+        self._new_defs = out
+        return out
+
     def new_private_storage(self):
         """names of private fields (self._x) this tree stores that the pinned tree did not have in that class - or anywhere, for classes new to the tree: the
         representation a change introduced.  The conventional backing field of a property (name -> _name) is excluded: analyses read those through."""
